@@ -211,9 +211,11 @@ public:
   {
     if(capacity <= _capacity)
       return;
+    usize size = bufferEnd - bufferStart;
+    if(capacity < size)
+      capacity = size;
     _capacity = capacity;
     byte* newBuffer = (byte*)new char [capacity + 1];
-    usize size = bufferEnd - bufferStart;
     Memory::copy(newBuffer, bufferStart, size);
     delete[] (char*)buffer;
     bufferStart = buffer = newBuffer;
